@@ -286,6 +286,14 @@ func runC02(c *eng.Ctx) {
 	}}, "leaderEpochCache.epochOffsets")
 	c.Floor(12)
 
+	// ---- R02.6 shared: commit rule and election candidate
+	c.Rule("R04.2", "K1")
+	ruleCommitRule(c)
+	c.Floor(9)
+	c.Rule("R07.4", "K5")
+	ruleCandidate(c)
+	c.Floor(4)
+
 	// ---- R02.7 ISR shrink/expand shape
 	c.Rule("R02.7", "K1")
 	if fn := c.Fn("server.(*replicator).tick"); fn != nil {
